@@ -109,7 +109,7 @@ def showGrouped (d : Dict Nat (List Nat)) : String :=
   ",".intercalate (ents.map fun p => s!"{p.1}={showNats p.2 "."}")
 
 def pairsOf (d : Dict Nat (List Nat)) : List (Nat × Nat) :=
-  (d.flatMap fun p => p.2.map fun v => (p.1, v)).mergeSort lePair
+  (iteritems d).mergeSort lePair
 
 def dumpM2M (s : M2M Nat) : String :=
   s!"F{showGrouped s.data}/P{showPairs (pairsOf s.data)}/I{showGrouped s.inv}/Q{showPairs (pairsOf s.inv)}"
